@@ -462,6 +462,9 @@ reg("CompositeTransform.scalar_methods", [], [{}],
     lambda A, S: (S.uniform_scale(2.0), S.non_uniform_scale(1.0, 2.0, 3.0), S.flip(1), S.convert_units("cm", "m"),
                   S.transform_matrix_for(from_range=(0, 3), reverse=True), S.transform_matrix_for()),
     selfs=["composite"], model=False)
+reg("CompositeTransform.transform_matrix_for", [], [{}],
+    lambda A, S: (S.transform_matrix_for(), S.transform_matrix_for(from_range=(0, 2), reverse=True)),
+    selfs=["composite", "composite_empty"], model=False)
 reg("CoordinateManager.__setattr__", [("points", "f")], [{"points": K3}], lambda A, S: setattr(S, "a", A["points"]), selfs=["manager"])
 reg("CoordinateManager.do_transform", [("points", "f")], [{"points": P3}, {"points": K3}],
     lambda A, S: S.do_transform(A["points"], "a", "c"), selfs=["manager"], stack=dict(stacked=["points"]),
